@@ -17,6 +17,11 @@ package main
 //   ValidateJobUpdate                     guard of the startPolicy check: `!<obj>.Status.StartTime.IsZero()`
 //   ValidateKillTimestampUpdate           the rejecting condition, as written
 //   ValidateCronScheduleExpression        the hash id literal passed to parser.Parse
+//   ValidateJobConfig                     whether it re-parses the schedule the way the scheduler will
+//                                         (`if len(allErrs) == 0 { … v.validateCronScheduleForJobConfig(rjc, …) }`,
+//                                         fix d9dad79); of validateCronScheduleForJobConfig: the early-return
+//                                         guard as written, and the hash id handed to
+//                                         cron.NewExpressionFromCronSchedule (must be cache.MetaNamespaceKeyFunc(rjc))
 //   cronschedule.parseCronAndTimezone     the early-return guard, as written
 //   cron.NewParserFromConfig              defaults of the three pointer.BoolDeref calls
 
@@ -271,6 +276,60 @@ func validationFacts(b *strings.Builder) {
 	} else {
 		failf("ValidateCronScheduleExpression: parser.Parse(cronSchedule, \"…\") not found")
 	}
+	// the scheduler-style re-parse inside ValidateJobConfig (absent before fix d9dad79: recorded, not an error)
+	recheck, recheckGuard, recheckHash := false, "", ""
+	if fd := funcDecl(validationFile, "Validator", "ValidateJobConfig"); fd != nil {
+		ast.Inspect(fd, func(n ast.Node) bool {
+			is, ok := n.(*ast.IfStmt)
+			if !ok {
+				return true
+			}
+			inner := callsIn(&ast.FuncDecl{Body: is.Body, Name: fd.Name, Type: fd.Type}, "v.validateCronScheduleForJobConfig")
+			if len(inner) == 1 {
+				if render(is.Cond) != "len(allErrs) == 0" || len(inner[0].Args) != 2 || render(inner[0].Args[0]) != "rjc" ||
+					render(inner[0].Args[1]) != `field.NewPath("spec", "schedule", "cron")` {
+					failf("ValidateJobConfig: the call of validateCronScheduleForJobConfig has an unrecognised shape: if %s { %s }", render(is.Cond), render(inner[0]))
+				}
+				recheck = true
+			}
+			return true
+		})
+	}
+	if recheck {
+		var fd *ast.FuncDecl
+		if f := parse(validationFile); f != nil {
+			for _, d := range f.Decls {
+				if x, ok := d.(*ast.FuncDecl); ok && x.Name.Name == "validateCronScheduleForJobConfig" {
+					fd = x
+				}
+			}
+		}
+		if fd == nil {
+			failf("validateCronScheduleForJobConfig is called but not declared")
+		} else {
+			if c := firstIfCond(fd, "validateCronScheduleForJobConfig"); c != nil {
+				recheckGuard = render(c)
+			}
+			cs := callsIn(fd, "cron.NewExpressionFromCronSchedule")
+			if len(cs) != 1 || len(cs[0].Args) != 3 || render(cs[0].Args[0]) != "schedule.Cron" ||
+				render(cs[0].Args[1]) != "cron.NewParserFromConfig(cfg)" {
+				failf("validateCronScheduleForJobConfig: cron.NewExpressionFromCronSchedule(schedule.Cron, cron.NewParserFromConfig(cfg), <id>) not found")
+			} else {
+				id := exprName(cs[0].Args[2])
+				// resolve `<id>, err := <call>`
+				ast.Inspect(fd, func(n ast.Node) bool {
+					as, ok := n.(*ast.AssignStmt)
+					if ok && len(as.Lhs) >= 1 && len(as.Rhs) == 1 && exprName(as.Lhs[0]) == id {
+						recheckHash = render(as.Rhs[0])
+					}
+					return true
+				})
+				if recheckHash != "cache.MetaNamespaceKeyFunc(rjc)" {
+					failf("validateCronScheduleForJobConfig: hash id %q is %q, expected cache.MetaNamespaceKeyFunc(rjc)", id, recheckHash)
+				}
+			}
+		}
+	}
 	schedGuard := ""
 	if c := firstIfCond(funcDecl(scheduleFile, "Schedule", "parseCronAndTimezone"), "parseCronAndTimezone"); c != nil {
 		schedGuard = render(c)
@@ -311,6 +370,8 @@ func validationFacts(b *strings.Builder) {
 	fmt.Fprintf(b, "/-- `ValidateJobUpdate`: the startPolicy check is guarded by the start time of this object (\"new\" = rj, \"old\" = oldRj) -/\ndef valStartPolicyGuardObject : String := %s\n", leanStr(startGuardObj))
 	fmt.Fprintf(b, "/-- `ValidateKillTimestampUpdate`: the rejecting condition as written -/\ndef valKillTimestampGuard : String := %s\n", leanStr(killGuard))
 	fmt.Fprintf(b, "/-- hash id that `ValidateCronScheduleExpression` passes to `parser.Parse` -/\ndef valCronHashID : String := %s\n", leanStr(hashID))
+	fmt.Fprintf(b, "/-- `ValidateJobConfig` re-parses the schedule with the scheduler's hash id when nothing else was rejected (fix d9dad79) -/\ndef valJobConfigScheduleRecheck : Bool := %v\n", recheck)
+	fmt.Fprintf(b, "/-- `validateCronScheduleForJobConfig`: guard of the early return as written; the hash id it parses with -/\ndef valScheduleRecheckSkipGuard : String := %s\ndef valScheduleRecheckHashID : String := %s\n", leanStr(recheckGuard), leanStr(recheckHash))
 	fmt.Fprintf(b, "/-- `Schedule.parseCronAndTimezone`: guard of the early `return nil, nil, nil` as written -/\ndef schedSkipGuard : String := %s\n", leanStr(schedGuard))
 	fmt.Fprintf(b, "/-- `cron.NewParserFromConfig`: defaults of the pointer.BoolDeref calls (config field, default) -/\ndef cronParserBoolDefaults : List (String × String) := %s\n", leanPairs(derefs))
 }
